@@ -45,9 +45,9 @@ def programs(ctx):
     rng = random.Random(ctx.seed + 17)
     out = []
     i = 0
-    combos = list(itertools.product(CONFIGS, FIELD_TYPES, ("struct", "tuple", "enum"), (False, True)))
+    combos = list(itertools.product(CONFIGS, FIELD_TYPES, ("struct", "tuple", "enum", "enum_tuple"), (False, True)))
     if ctx.quick:
-        combos = rng.sample(combos, 130)
+        combos = rng.sample(combos, 130) + [c for c in combos if c[2] == "enum_tuple" and c[1][0] in ("u8", "NE") and not c[3]]
     for (attr, comp), (fty, fty_eq), shape, generic_inst_ne in combos:
         generic = fty == "T"
         if generic:
@@ -64,8 +64,12 @@ def programs(ctx):
             item = "pub struct X%s { %s pub a: %s, pub z: u8 }" % (g, attr, fty)
         elif shape == "tuple":
             item = "pub struct X%s(pub u8, %s pub %s);" % (g, attr, fty)
-        else:
+        elif shape == "enum":
             item = "pub enum X%s { A, B { z: u8, %s a: %s }, C(u8) }" % (g, attr, fty)
+        else:
+            # tuple variant with an ignored field of the *opposite* Eq-ness in front: the assertion must look at the compared field
+            lead = "NE" if (fty_is_eq if not generic else not generic_inst_ne) else "u8"
+            item = "pub enum X%s { A, B(#[eq(ignore)] %s, %s %s), C(u8) }" % (g, lead, attr, fty)
         # the companion PartialEq is derived by derive_ex as well (same attributes), so only Eq's own assertion decides
         text = "#[derive_ex::derive_ex(Eq, PartialEq)]\n%s\n\npub fn need_eq<E: Eq>() {}\npub fn probe() { need_eq::<X%s>(); }\npub fn replay(h: &str, b: &[u8]) -> (bool, String) { (true, String::new()) }\n" % (
             item, ("<%s>" % inst) if generic else "")
